@@ -291,7 +291,7 @@ def workout():
     return n
 
 
-def derived_table():
+def derived_table(redeclare=False):
     """Run in a FRESH interpreter: derive a subclass from every module class (legal; the metaclass registers every class
     that has an mtype, so the subclass becomes the class used for loading that type) and report, per type, whether the
     class now registered still carries the controller / option metadata of the specified class."""
@@ -312,6 +312,17 @@ def derived_table():
         before = table(base)
         data = C.save(rv.Synth(base()))
         try:
+            if redeclare:
+                # FIRST a subclass that re-declares an inherited controller (same range, another default) -- legal, and its
+                # own business; the base class and a plain sibling derived afterwards still carry the specified metadata
+                from rv.controller import Controller
+
+                name0, c0 = next(((n_, c_) for n_, c_ in base.controllers.items()
+                                  if isinstance(getattr(c_.value_type, "min", None), int) and type(c_.value_type).__name__ == "Range"),
+                                 (None, None))
+                if name0 is not None:
+                    type(base)("Redeclared" + base.__name__, (base,),
+                               {"__module__": __name__, name0: Controller((c0.value_type.min, c0.value_type.max), c0.value_type.max)})
             derived = type(base)("Derived" + base.__name__, (base,), {"__module__": __name__})
             reg = MODULE_CLASSES[t.type]
             loaded = C.load_bytes(data).module
@@ -320,7 +331,7 @@ def derived_table():
             out[tkey] = {"same_as_before": False, "derived_same": False, "loaded_values_equal": False,
                          "error": type(e).__name__ + ": " + str(e)[:120]}
             continue
-        out[tkey] = {"same_as_before": table(reg) == before, "derived_same": table(derived) == before,
+        out[tkey] = {"same_as_before": table(reg) == before and table(base) == before, "derived_same": table(derived) == before,
                      "n_before": len(before["controllers"]), "n_registered": len(table(reg)["controllers"]),
                      "loaded_controllers": len(loaded.controllers),
                      "loaded_values_equal": [repr(getattr(loaded, n)) for n in loaded.controllers] ==
@@ -335,17 +346,20 @@ def derived_check():
     import sys
 
     env = dict(os.environ, PYTHONPATH=treeenv.VERIF)
-    code = ("import json; from rvmc import treeenv; treeenv.setup(); from checks import c13; "
-            "print(json.dumps(c13.derived_table()))")
-    r = subprocess.run([sys.executable, "-c", code], capture_output=True, text=True, env=env, cwd=treeenv.VERIF)
-    if r.returncode != 0:
-        return 0, [C.viol("derived-class-run-failed", {}, {"stderr": r.stderr[-400:]}, {"derived": True})]
-    tb = json.loads(r.stdout.strip().splitlines()[-1])
     vs = []
-    for tkey, row in tb.items():
-        if not (row["same_as_before"] and row["derived_same"] and row["loaded_values_equal"]):
-            vs.append(C.viol("metadata-lost-in-derived-class", {"type": tkey}, row, {"derived": True}))
-    return len(tb), vs[:6]
+    total = 0
+    for redeclare in (False, True):
+        code = ("import json; from rvmc import treeenv; treeenv.setup(); from checks import c13; "
+                f"print(json.dumps(c13.derived_table({redeclare})))")
+        r = subprocess.run([sys.executable, "-c", code], capture_output=True, text=True, env=env, cwd=treeenv.VERIF)
+        if r.returncode != 0:
+            return 0, [C.viol("derived-class-run-failed", {"redeclared_first": redeclare}, {"stderr": r.stderr[-400:]}, {"derived": True})]
+        tb = json.loads(r.stdout.strip().splitlines()[-1])
+        total += len(tb)
+        for tkey, row in tb.items():
+            if not (row["same_as_before"] and row["derived_same"] and row["loaded_values_equal"]):
+                vs.append(C.viol("metadata-lost-in-derived-class", {"type": tkey, "redeclared_first": redeclare}, row, {"derived": True}))
+    return total, vs[:6]
 
 
 def run_case(case):
